@@ -169,6 +169,10 @@ func (S *Specs) loadSpecFile(path string, repoFile bool, pkg string) error {
 			last = nil
 		case kw == "guarded":
 			// guarded <type> <.field> by <.lockfield>
+			if len(fields) == 4 && fields[3] == "atomic" {
+				// guarded <type> <.field> atomic : the field is accessed through sync/atomic only
+				fields = []string{fields[0], fields[1], fields[2], "by", "#atomic"}
+			}
 			if len(fields) != 5 || fields[3] != "by" {
 				return fmt.Errorf("%s: expected 'guarded <type> <.field> by <.lock>'", src)
 			}
